@@ -17,6 +17,29 @@ thread_local! {
     static QUIET: std::cell::Cell<bool> = const { std::cell::Cell::new(false) };
 }
 
+/// Process-global state a library may consult: in the main configuration a `log` logger is installed
+/// at Trace level (so the arguments of every log statement of the library are evaluated; records are
+/// discarded); the plain configuration runs without a logger (max level Off), like most programs.
+pub fn install_logger() {
+    struct Sink;
+    impl log::Log for Sink {
+        fn enabled(&self, _: &log::Metadata) -> bool {
+            true
+        }
+        fn log(&self, r: &log::Record) {
+            // format the arguments (their Display/Debug impls run), then drop the text
+            let _ = format!("{}", r.args());
+        }
+        fn flush(&self) {}
+    }
+    if cfg!(feature = "libsecp") {
+        static SINK: Sink = Sink;
+        if log::set_logger(&SINK).is_ok() {
+            log::set_max_level(log::LevelFilter::Trace);
+        }
+    }
+}
+
 pub fn install_panic_hook() {
     static ONCE: std::sync::Once = std::sync::Once::new();
     ONCE.call_once(|| {
@@ -558,7 +581,7 @@ pub fn run_history<V: Visitor>(h: &History, force_fault: bool, v: &mut V) -> Res
     }
     match h.fam {
         FamId::K256 => go!(k256::ecdsa::SigningKey),
-        FamId::Libsecp => go!(secp256k1::SecretKey),
+        FamId::Libsecp => go!(crate::keys::LibsecpKey),
         FamId::Ed => go!(ed25519_dalek::SigningKey),
         FamId::CombinedSecp | FamId::CombinedEd => go!(enr::CombinedKey),
         FamId::Var | FamId::Wide => go!(VarKey),
@@ -665,7 +688,7 @@ fn run_blind_typed<K: Fam>(h: &History, upto: usize, order: u8) -> Result<Option
 pub fn run_blind(h: &History, upto: usize, order: u8) -> Result<Option<(Vec<CallRes>, Cold)>, String> {
     match h.fam {
         FamId::K256 => run_blind_typed::<k256::ecdsa::SigningKey>(h, upto, order),
-        FamId::Libsecp => run_blind_typed::<secp256k1::SecretKey>(h, upto, order),
+        FamId::Libsecp => run_blind_typed::<crate::keys::LibsecpKey>(h, upto, order),
         FamId::Ed => run_blind_typed::<ed25519_dalek::SigningKey>(h, upto, order),
         FamId::CombinedSecp | FamId::CombinedEd => run_blind_typed::<enr::CombinedKey>(h, upto, order),
         FamId::Var | FamId::Wide => run_blind_typed::<VarKey>(h, upto, order),
